@@ -13,6 +13,11 @@ FAMS = [
                   {"exec": "asyncio", "faulty": True, "cancels": True,
                    "cancel_kinds": ["scope", "deadline"], **OPTS},
                   [oracles.LimitObserver], []),
+    PoolMixFamily("C04", "limit-async-retries", 1500, 25000,
+                  {"exec": "asyncio", "faulty": True, **OPTS, "max_connections": [1, 1, 2, 2, 3],
+                   "fault_kinds": ["connect_error", "connect_timeout", "tls_error"],
+                   "fault_rates": [0.15, 0.3, 0.5], "retries": [1, 2, 3, 5]},
+                  [oracles.LimitObserver], []),
     PoolMixFamily("C04", "limit-trio", 1200, 20000,
                   {"exec": "trio", "faulty": True, "cancels": True, **OPTS},
                   [oracles.LimitObserver], []),
@@ -37,7 +42,8 @@ register("C04", {
     "level": "exploration",
     "rule": "seeded swarm over concurrent pool workloads with max_connections 1..4, "
             "2-5 callers, 1-3 origins, failures, scope/deadline cancellations, keep-alive "
-            "evictions and slow closes; invariant evaluated after every task step / "
+            "evictions and slow closes, connection retries with back-off under frequent "
+            "connect / TLS failures; invariant evaluated after every task step / "
             "scheduler decision; non-trivial = >=2 callers or a fault fired; distinct = "
             "distinct event-log digest; plus the 'evictor' sweep: a request whose arrival "
             "pass evicts 2-3 expired connections at once, cancelled at every suspension point",
